@@ -346,9 +346,12 @@ package proxy
 // pointer are stable while the lock is free; the acknowledgement side may only discard from the front, which keeps
 // the end of the ring at nextProxyTaskID+1). A-mem: ids stay below 2^61.
 //@ guards proxyStreamSender.mu: nextProxyTaskID, idRing, *idRing, prevAckBySource, *prevAckBySource, lastMsgSendTime, lastSentWatermark
-//@   lockinv self.idRing != nil && self.idRing.wf() && self.nextProxyTaskID >= 0 &&
-//@           (self.idRing.size > 0 ==> self.idRing.startProxyID + int64(self.idRing.size) == self.nextProxyTaskID + 1) &&
-//@           self.lastSentWatermark <= self.nextProxyTaskID + 1
+// The id table is allocated lazily by Run under the lock: until then the pointer is nil (the invariant holds for the
+// zero-valued sender), afterwards it is stable (rely) and the table is well formed. The workers require a non-nil table;
+// Run establishes that before it starts them (spawn obligations).
+//@   lockinv (self.idRing != nil ==> self.idRing.wf() &&
+//@           (self.idRing.size > 0 ==> self.idRing.startProxyID + int64(self.idRing.size) == self.nextProxyTaskID + 1)) &&
+//@           self.nextProxyTaskID >= 0 && self.lastSentWatermark <= self.nextProxyTaskID + 1
 //@   rely self.nextProxyTaskID == old(self.nextProxyTaskID) && self.idRing == old(self.idRing) && self.nextProxyTaskID < 2305843009213693952 && self.prevAckBySource == old(self.prevAckBySource)
 
 //@ extern quiet (channel.ShutdownOnce).IsShutdown
@@ -381,10 +384,11 @@ package proxy
 
 //@ contract (*proxyStreamSender).sendReplicationMessages
 //@   props C02 C01 C04
+//@   requires @table_allocated: s.idRing != nil
 //@   wakeup shutdownChan.Channel()
 //@   ensures @latch_tripped: shutdownChan.tripped
 //@   requires s.lastTask >= 0 && s.lastHigh >= 0 && s.lastTask <= s.nextProxyTaskID && s.lastHigh <= s.nextProxyTaskID + 1
-//@   loop 1 invariant s.lastTask >= 0 && s.lastHigh >= 0 && s.lastTask <= s.nextProxyTaskID && s.lastHigh <= s.nextProxyTaskID + 1
+//@   loop 1 invariant s.idRing != nil && s.lastTask >= 0 && s.lastHigh >= 0 && s.lastTask <= s.nextProxyTaskID && s.lastHigh <= s.nextProxyTaskID + 1
 //@   loop 3 invariant s.idRing != nil && s.idRing.wf() && s.nextProxyTaskID == entry(s.nextProxyTaskID) + int64($i)
 //@   loop 3 invariant s.idRing.size > 0 ==> s.idRing.startProxyID + int64(s.idRing.size) == s.nextProxyTaskID + 1
 //@   loop 3 invariant forall k int :: { m.Messages.ReplicationTasks[k] } 0 <= k && k < $i ==> m.Messages.ReplicationTasks[k].SourceTaskId == entry(s.nextProxyTaskID) + int64(k) + 1
@@ -444,6 +448,7 @@ package proxy
 // exactly as many as the aggregation covered.
 //@ contract (*proxyStreamSender).recvAck
 //@   props C01 C04 C05:emit
+//@   requires @table_allocated: s.idRing != nil
 //@   wakeup shutdownChan.Channel()
 //@   ensures @latch_tripped: shutdownChan.tripped
 //@   requires s.prevAckBySource != nil && !fresh(s.prevAckBySource)
@@ -452,12 +457,12 @@ package proxy
 //@   callpre AggregateUpTo: @at_received_watermark: $watermark == proxyAckWatermark
 //@   callpre Discard: @count_from_aggregation: $count == pendingDiscard
 //@   arith wrap
-//@   loop 1 invariant s.prevAckBySource != nil && !fresh(s.prevAckBySource)
-//@   loop 2 invariant shardToAck != nil && sent != nil && s.prevAckBySource != nil && !fresh(s.prevAckBySource) && sent != shardToAck && fresh(shardToAck) && fresh(sent)
-//@   loop 3 invariant shardToAck != nil && sent != nil && s.prevAckBySource != nil && !fresh(s.prevAckBySource) && sent != shardToAck && fresh(shardToAck) && fresh(sent)
-//@   loop 4 invariant pendingPrev != nil && fresh(pendingPrev) && s.prevAckBySource != nil
-//@   loop 5 invariant pendingPrev != nil && sent != nil && sent != pendingPrev && len(shardToAck) == 0
-//@   loop 6 invariant pendingPrev != nil && sent != nil && sent != pendingPrev && len(shardToAck) == 0
+//@   loop 1 invariant s.idRing != nil && s.prevAckBySource != nil && !fresh(s.prevAckBySource)
+//@   loop 2 invariant s.idRing != nil && shardToAck != nil && sent != nil && s.prevAckBySource != nil && !fresh(s.prevAckBySource) && sent != shardToAck && fresh(shardToAck) && fresh(sent)
+//@   loop 3 invariant s.idRing != nil && shardToAck != nil && sent != nil && s.prevAckBySource != nil && !fresh(s.prevAckBySource) && sent != shardToAck && fresh(shardToAck) && fresh(sent)
+//@   loop 4 invariant s.idRing != nil && pendingPrev != nil && fresh(pendingPrev) && s.prevAckBySource != nil
+//@   loop 5 invariant s.idRing != nil && pendingPrev != nil && sent != nil && sent != pendingPrev && len(shardToAck) == 0
+//@   loop 6 invariant s.idRing != nil && pendingPrev != nil && sent != nil && sent != pendingPrev && len(shardToAck) == 0
 
 // ---------------------------------------------------------------------------------------------
 // C02 (receiver side): grouping by owning target shard and hand-off.
